@@ -32,7 +32,7 @@ ASSUMPTIONS = [
     "reference conformance in pbt/props/c13.py; typing semantics for Sequence (a str is a Sequence[str])",
     "annotations that Python or mashumaro refuse are discarded (counted)",
 ]
-FLOORS = {"constructions:value-False": 0.05, "constructions:fixed-tuple-length-mismatch": 0.003,
+FLOORS = {"constructions:value-False": 0.04, "constructions:fixed-tuple-length-mismatch": 0.003,
           "constructions:all-conform": 0.2, "constructions:some-nonconforming": 0.3}
 
 
@@ -165,7 +165,8 @@ POOL = [True, False, 0, 1, -1, {"big": 1}, 0.0, 1.5, "", "a", "NodeA", {"none": 
         {"tuple": []}, {"tuple": [1]}, {"tuple": [True]}, {"tuple": [1, "a"]}, {"tuple": [{"node": "NodeA"}]},
         {"tuple": [{"node": "NodeA"}, {"node": "NodeB"}]}, {"tuple": [{"none": 1}]}, {"list": []}, {"list": [1]},
         {"list": [{"node": "NodeA"}]}, {"fs": []}, {"fs": [1, 2]}, {"fs": [True]}, {"fs": ["a"]}, {"dict": []},
-        {"dict": [["a", 1]]}, {"dict": [[1, "a"]]}, {"tuple": [{"tuple": [1]}]}, {"tuple": [1, 2, 3]}]
+        {"dict": [["a", 1]]}, {"dict": [[1, "a"]]}, {"tuple": [{"tuple": [1]}]}, {"tuple": [1, 2, 3]},
+        False, False, {"tuple": [False]}, {"tuple": [{"none": 1}, {"none": 1}]}, {"fs": [{"tuple": []}, {"tuple": [{"none": 1}]}]}]
 
 
 def gen_conforming(a: dict, d: Det) -> Any:
@@ -321,6 +322,18 @@ def check_construction(data: dict, lab: Labels) -> None:
         verdicts = {f["name"]: conforms(live[f["name"]], f["ann"], mod) for f in fields}
         open_ = [n for n, r in verdicts.items() if r is None]
         bad = sorted(n for n, r in verdicts.items() if r is False)
+        # the inherited keyword-only `origin: Origin` field is validated like every other field
+        okind = data.get("origin", 0) % 4
+        bad_origin = False
+        if okind:
+            from pyoak.origin import CodeOrigin, MemoryTextSource, get_code_range
+
+            src = MemoryTextSource(_raw="abc", source_uri="c13")
+            kwargs["origin"] = [None, CodeOrigin(source=src, position=get_code_range(0, 1, 0, 1, 1, 1)), src, None][okind]
+            bad_origin = okind >= 2
+            lab.tag("origin-given-" + ("ill-typed" if bad_origin else "well-typed"))
+            if bad_origin:
+                bad = sorted([*bad, "origin"])
         for f in fields:
             v = live[f["name"]]
             lab.tag_if(v is False, "value-False")
@@ -355,17 +368,17 @@ def check_construction(data: dict, lab: Labels) -> None:
         try:
             node_on = cls(**kwargs)
             require(not bad, "ill-typed-construction-accepted", f"fields {bad} do not conform: "
-                    + "; ".join(f"{n}={live[n]!r:.60} : {types[n]!r:.100}" for n in bad))
+                    + "; ".join(f"{n}={kwargs.get(n, live.get(n))!r:.60} : {types[n]!r:.100}" for n in bad))
         except InvalidTypes as e:
             got_bad = sorted(f.name for f in e.invalid_fields)
             require(bool(bad), "well-typed-construction-rejected", f"InvalidTypes for {got_bad}: "
-                    + "; ".join(f"{n}={live[n]!r:.60} : {types[n]!r:.100}" for n in got_bad))
+                    + "; ".join(f"{n}={kwargs.get(n, live.get(n))!r:.60} : {types[n]!r:.100}" for n in got_bad))
             require(got_bad == bad, "invalid_fields", f"reported {got_bad}, reference {bad}")
         finally:
             config.RUNTIME_TYPE_CHECK = False
         # switch off: nothing is validated; for conforming input the node is the same
         child_fields = {f["name"] for f in fields if CF.classify_ref(f["ann"]) != "property"}
-        if not bad or not (set(bad) & child_fields):
+        if (not bad or not (set(bad) & child_fields)) and not bad_origin:
             try:
                 node_off = cls(**kwargs)
             except InvalidTypes:
@@ -396,7 +409,8 @@ def st_construction(ctx: Ctx):
     fld = st.fixed_dictionaries({"ann": ann, "mode": st.sampled_from([1, 2, 3, 0, 1, 2]), "pick": st.integers(0, 200),
                                  "noninit": st.sampled_from([False, False, False, True])})
     return st.fixed_dictionaries({"fields": st.lists(fld, min_size=1, max_size=5), "seed": st.integers(0, 2**31),
-                                  "postponed": st.booleans(), "split": st.sampled_from([0, 0, 1, 2, 3])})
+                                  "postponed": st.booleans(), "split": st.sampled_from([0, 0, 1, 2, 3]),
+                                  "origin": st.sampled_from([0, 0, 0, 1, 2, 3])})
 
 
 PARTS = [Part("constructions", check_construction, strategy=st_construction, quick=2400, thorough=120000)]
